@@ -59,7 +59,7 @@ func ruleAddrResolved(c *Ctx) {
 		if !ok {
 			return false
 		}
-		if _, isDecl := m.Ast.(*ast.DeclStmt); isDecl && rhs == nil {
+		if isVarDeclNode(m.Ast) && rhs == nil {
 			return false
 		}
 		if rhs != nil && isNilIdent(info, rhs) {
@@ -132,21 +132,24 @@ func ruleAddrResolved(c *Ctx) {
 
 // ---------- R-ROUTE/all: every healthy iteration of a broker's Run offers the message to its slot ----------
 
-func isPendingChSend(info *types.Info, s ast.Stmt) bool {
+func isPendingChSend(p *Prog, info *types.Info, s ast.Stmt) bool {
 	ss, ok := s.(*ast.SendStmt)
 	if !ok {
 		return false
 	}
-	fv := SelField(info, ss.Chan)
-	if fv == nil || fv.Name() != "ch" {
+	return isPendingField(p, info, ss.Chan, "ch")
+}
+
+// isPendingField: e selects the field with canonical name want ("ch",
+// "doneCh") of one of the brokers' pending-slot structs. Canonical names
+// survive a rename of the field (known-field table).
+func isPendingField(p *Prog, info *types.Info, e ast.Expr, want string) bool {
+	fv := SelField(info, e)
+	if fv == nil {
 		return false
 	}
-	se := ast.Unparen(ss.Chan).(*ast.SelectorExpr)
-	t := info.TypeOf(se.X)
-	if t == nil {
-		return false
-	}
-	return strings.HasSuffix(derefType(t).String(), "Pending")
+	n := p.FieldName(fv)
+	return strings.HasSuffix(n, "Pending."+want)
 }
 
 func ruleRunDispatch(c *Ctx) {
@@ -181,12 +184,12 @@ func ruleRunDispatch(c *Ctx) {
 			switch x := n.(type) {
 			case *ast.SelectStmt:
 				for _, cl := range x.Body.List {
-					if cc := cl.(*ast.CommClause); cc.Comm != nil && isPendingChSend(info, cc.Comm) {
+					if cc := cl.(*ast.CommClause); cc.Comm != nil && isPendingChSend(p, info, cc.Comm) {
 						handSel[x] = true
 					}
 				}
 			case *ast.SendStmt:
-				if isPendingChSend(info, x) {
+				if isPendingChSend(p, info, x) {
 					if m := g.NodeOf(x); m != nil {
 						hand[m] = true
 					}
@@ -288,13 +291,7 @@ func rulePendDone(c *Ctx) {
 			if rx == nil {
 				continue
 			}
-			fv := SelField(info, rx)
-			if fv == nil || fv.Name() != "ch" {
-				continue
-			}
-			owner := ast.Unparen(rx).(*ast.SelectorExpr).X
-			ot := info.TypeOf(owner)
-			if ot == nil || !strings.HasSuffix(derefType(ot).String(), "Pending") {
+			if !isPendingField(p, info, rx, "ch") {
 				continue
 			}
 			n++
@@ -304,7 +301,7 @@ func rulePendDone(c *Ctx) {
 				}
 				for _, call := range callsIn(x.Ast) {
 					if p.CalleeName(f, call) == "builtin.close" && len(call.Args) == 1 {
-						if cf := SelField(info, call.Args[0]); cf != nil && cf.Name() == "doneCh" {
+						if isPendingField(p, info, call.Args[0], "doneCh") {
 							return true
 						}
 					}
@@ -617,8 +614,7 @@ func ruleExpiryDrain(c *Ctx) {
 			return true
 		}
 		rx := commRecvExpr(cc)
-		fv := SelField(info, rx)
-		if fv == nil || fv.Name() != "ch" {
+		if rx == nil || !isPendingField(p, info, rx, "ch") {
 			return true
 		}
 		as, ok := cc.Comm.(*ast.AssignStmt)
@@ -1375,5 +1371,185 @@ func ruleNoCopySync(c *Ctx) {
 		c.R.Undecided("R-COPY", "", "instance-floor", fmt.Sprintf("only %d module types carrying synchronisation state found, at least 8 expected (Client, both brokers, both muxers, the servers, the pending slots)", nTypes))
 	} else if bad == 0 {
 		c.R.Hold("R-COPY", "-", "", "no copy of an object carrying synchronisation state", fmt.Sprintf("%d module types carry a sync primitive or an atomically updated field; none has a value receiver, is passed, returned, assigned or ranged by value", nTypes), true)
+	}
+}
+
+// ---------- R-CARRY: state carried between iterations of the stderr loop survives the iteration ----------
+
+// ruleLoopCarried: in the functions that read the plugin's output, an assignment
+// to a local inside a loop must be able to reach a use of that local. An
+// assignment made at the end of an iteration to a variable that the next
+// iteration re-declares is dead: the flag it was meant to carry (previous line
+// was a prefix, inside a panic trace) is lost, and the next line is classified
+// as if it were the first.
+func ruleLoopCarried(c *Ctx) {
+	p := c.P
+	reach, nroots := p.readerReach()
+	if nroots < 3 {
+		c.R.Undecided("R-CARRY", "Client.Start", "anchor", fmt.Sprintf("reader goroutines not found (roots=%d)", nroots))
+		return
+	}
+	var fs []*Func
+	for f := range reach {
+		fs = append(fs, f)
+	}
+	sort.Slice(fs, func(i, j int) bool { return fs[i].Name < fs[j].Name })
+	n := 0
+	for _, f := range fs {
+		if strings.HasSuffix(p.Fset.Position(f.Body.Pos()).Filename, "testing.go") {
+			continue
+		}
+		info := f.Pkg.TypesInfo
+		g := p.Graph(f)
+		// loops of f
+		var loops []ast.Node
+		walkNoLit(f.Body, func(x ast.Node) bool {
+			switch x.(type) {
+			case *ast.ForStmt, *ast.RangeStmt:
+				loops = append(loops, x)
+			}
+			return true
+		})
+		if len(loops) == 0 {
+			continue
+		}
+		inLoop := func(pos token.Pos) bool {
+			for _, l := range loops {
+				if pos >= l.Pos() && pos <= l.End() {
+					return true
+				}
+			}
+			return false
+		}
+		for _, m := range g.Nodes {
+			as, ok := m.Ast.(*ast.AssignStmt)
+			if !ok || as.Tok != token.ASSIGN || !inLoop(as.Pos()) {
+				continue
+			}
+			for _, l := range as.Lhs {
+				id, ok := ast.Unparen(l).(*ast.Ident)
+				if !ok || id.Name == "_" {
+					continue
+				}
+				v, ok := info.Uses[id].(*types.Var)
+				if !ok || v.IsField() || v.Parent() == nil || v.Parent() == f.Pkg.Types.Scope() {
+					continue
+				}
+				// only state flags and counters: booleans, integers, strings
+				if b, ok := v.Type().Underlying().(*types.Basic); !ok || b.Info()&(types.IsBoolean|types.IsInteger|types.IsString) == 0 {
+					continue
+				}
+				// named results are read by the caller
+				isResult := false
+				if f.Type.Results != nil {
+					for _, fd := range f.Type.Results.List {
+						for _, nm := range fd.Names {
+							if info.Defs[nm] == v {
+								isResult = true
+							}
+						}
+					}
+				}
+				if isResult {
+					continue
+				}
+				n++
+				live := false
+				seen := map[*Node]bool{}
+				var work []*Node
+				for _, e := range m.Succs {
+					work = append(work, e.To)
+				}
+				for len(work) > 0 && !live {
+					x := work[len(work)-1]
+					work = work[:len(work)-1]
+					if seen[x] {
+						continue
+					}
+					seen[x] = true
+					if x.Ast != nil {
+						defs, uses := nodeDefsUses(info, x.Ast)
+						if uses[v] {
+							live = true
+							break
+						}
+						// uses inside function literals started/deferred here
+						ast.Inspect(x.Ast, func(y ast.Node) bool {
+							if yid, ok := y.(*ast.Ident); ok && info.Uses[yid] == v {
+								if _, isDef := defs[v]; !isDef {
+									live = true
+								}
+							}
+							return true
+						})
+						if _, re := defs[v]; re {
+							continue
+						}
+					}
+					for _, e := range x.Succs {
+						work = append(work, e.To)
+					}
+				}
+				construct := "assignment to " + v.Name() + " in a loop reaches a use"
+				if live {
+					c.R.Hold("R-CARRY", p.Pos(as), f.Name, construct, "", false)
+				} else {
+					c.R.Violate("R-CARRY", p.Pos(as), f.Name, construct,
+						"the value assigned to `"+v.Name()+"` here can never be read: every path to a use passes a re-declaration or re-assignment (the variable is re-initialised at the top of each iteration). State that was meant to carry over to the next chunk or line of the plugin's output is lost, so that line is classified as if nothing preceded it", nil)
+				}
+			}
+		}
+	}
+	c.R.Hold("R-CARRY", "-", "", "loop-carried state", fmt.Sprintf("%d assignments to scalar locals inside loops of the output readers examined", n), true)
+}
+
+// ---------- R-SIB/runnerwait: the attached runner waits for a process that is not its child ----------
+
+// ruleRunnerWait: a reattached plugin is in general not a child of this host,
+// and os.Process.Wait works for children only (it fails at once with "no
+// child processes" otherwise). The attached runner's Wait must therefore not be
+// built on os.Process.Wait / exec.Cmd.Wait but on a liveness poll of the pid;
+// the command runner's Wait reaps its child with exec.Cmd.Wait.
+func ruleRunnerWait(c *Ctx) {
+	p := c.P
+	n := 0
+	for _, f := range p.Funcs {
+		if f.Decl == nil || f.Obj == nil || f.Obj.Name() != "Wait" || f.Decl.Recv == nil || f.Pkg.PkgPath != modPath+"/internal/cmdrunner" {
+			continue
+		}
+		n++
+		reach := p.ReachableFuncs([]*Func{f}, false)
+		reach[f] = nil
+		childWait, polls := false, false
+		var where ast.Node
+		for rf := range reach {
+			for _, call := range rf.Calls() {
+				switch nm := p.CalleeName(rf, call); {
+				case nm == "os.Process.Wait" || nm == "os/exec.Cmd.Wait":
+					childWait, where = true, call
+				case nm == "os.FindProcess" || nm == "os.Process.Signal" || strings.HasSuffix(nm, "._pidAlive") || strings.HasSuffix(nm, ".pidAlive"):
+					polls = true
+				}
+			}
+		}
+		attached := strings.Contains(recvNamed(f), "Attached")
+		switch {
+		case attached && childWait:
+			c.R.Violate("R-SIB/runnerwait", p.Pos(where), f.Name, "attached runner waits by polling the pid",
+				"the reattached runner's Wait uses os.Process.Wait, which only works for child processes: for a plugin started by another host it returns at once with an error, the client marks the plugin as exited and cancels its context immediately after reattaching, and Kill then returns without waiting for (or force-killing) the still running plugin", nil)
+		case attached && !polls:
+			c.R.Violate("R-SIB/runnerwait", p.Pos(f.Node()), f.Name, "attached runner waits by polling the pid",
+				"the reattached runner's Wait neither polls the pid nor signals the process: it cannot observe the exit of a process that is not a child of this host", nil)
+		case attached:
+			c.R.Hold("R-SIB/runnerwait", p.Pos(f.Node()), f.Name, "attached runner waits by polling the pid", "Wait reaches the pid liveness poll and no child-only wait", true)
+		case !childWait:
+			c.R.Violate("R-SIB/runnerwait", p.Pos(f.Node()), f.Name, "command runner reaps its child",
+				"the command runner's Wait does not reach exec.Cmd.Wait / os.Process.Wait: the plugin process is never reaped (it stays a zombie) and its exit is not observed", nil)
+		default:
+			c.R.Hold("R-SIB/runnerwait", p.Pos(f.Node()), f.Name, "command runner reaps its child", "Wait reaches exec.Cmd.Wait", true)
+		}
+	}
+	if n < 2 {
+		c.R.Undecided("R-SIB/runnerwait", "", "instance-floor", fmt.Sprintf("only %d runner Wait implementations found in internal/cmdrunner, 2 expected", n))
 	}
 }
